@@ -600,7 +600,12 @@ def run_check(driver: Driver, argv=None):
             pr["failures"] = proof["failures"] + pr["failures"]
             proof = pr
         # translation tie: functions whose model is regenerated from the source on this run
-        translation = translation_obligations(pid)
+        try:
+            translation = translation_obligations(pid)
+        except Exception as e:     # fail closed: a crash of the tie is a broken obligation, not a silent skip
+            translation = {"obligations": 1, "discharged": 0, "functions": [], "theorems": [], "axioms": {},
+                           "generated": "", "equivalence_file": "",
+                           "failures": [f"translation tie crashed: {type(e).__name__}: {e}"]}
         if translation is not None:
             proof["obligations"] += translation["obligations"]
             proof["discharged"] += translation["discharged"]
